@@ -46,19 +46,35 @@ impl<'r> Series<'r> {
 
         if name == key::GENOTYPE {
             match self.ty {
+                Type::Int8(0) => return Some(Some(Err(invalid_length_error()))),
                 Type::Int8(len) => return get_genotype_value(self.src, header, len, i),
-                _ => todo!("unhandled type"),
+                _ => {
+                    return Some(Some(Err(io::Error::new(
+                        io::ErrorKind::InvalidData,
+                        "unhandled genotype type",
+                    ))));
+                }
             }
         }
 
-        let (number, ty) = header
+        let Some((number, ty)) = header
             .formats()
             .get(name)
             .map(|format| (format.number(), format.ty()))
-            .expect("missing type definition");
+        else {
+            return Some(Some(Err(io::Error::new(
+                io::ErrorKind::InvalidData,
+                "missing type definition",
+            ))));
+        };
 
         let value = match (number, ty, self.ty) {
-            (Number::Count(0), _, _) => todo!("invalid number for type"),
+            (Number::Count(0), _, _) => {
+                return Some(Some(Err(io::Error::new(
+                    io::ErrorKind::InvalidData,
+                    "invalid number for type",
+                ))));
+            }
 
             (_, _, Type::Int8(0) | Type::Int16(0) | Type::Int32(0) | Type::Float(0)) => {
                 return Some(Some(Err(io::Error::new(
@@ -97,14 +113,15 @@ impl<'r> Series<'r> {
                 get_string_array_value(self.src, len, i)
             }
 
-            _ => todo!("unhandled type"),
+            _ => {
+                return Some(Some(Err(io::Error::new(
+                    io::ErrorKind::InvalidData,
+                    "type mismatch",
+                ))));
+            }
         };
 
-        match value {
-            Some(Some(value)) => Some(Some(Ok(value))),
-            Some(None) => Some(None),
-            None => None,
-        }
+        value.map(Result::transpose)
     }
 }
 
@@ -149,10 +166,13 @@ pub(super) fn read_series<'a>(src: &mut &'a [u8], sample_count: usize) -> io::Re
     }
 
     let id = read_string_map_index(src)?;
-    let ty = read_type(src)?.expect("invalid type");
+    let ty = read_type(src)?
+        .ok_or_else(|| io::Error::new(io::ErrorKind::InvalidData, "invalid type"))?;
 
-    let len = size_of(ty) * sample_count;
-    let (buf, rest) = src.split_at(len);
+    let (buf, rest) = size_of(ty)
+        .checked_mul(sample_count)
+        .and_then(|len| src.split_at_checked(len))
+        .ok_or_else(|| io::Error::from(io::ErrorKind::UnexpectedEof))?;
 
     *src = rest;
 
@@ -174,6 +194,14 @@ fn read_string_map_index(src: &mut &[u8]) -> io::Result<usize> {
     }
 }
 
+fn invalid_length_error() -> io::Error {
+    io::Error::new(io::ErrorKind::InvalidData, "invalid length")
+}
+
+fn invalid_value_error() -> io::Error {
+    io::Error::new(io::ErrorKind::InvalidData, "invalid value")
+}
+
 fn range<N>(i: usize, len: usize) -> Range<usize> {
     let size = mem::size_of::<N>();
     let start = size * i * len;
@@ -181,90 +209,102 @@ fn range<N>(i: usize, len: usize) -> Range<usize> {
     start..end
 }
 
-fn get_i8_value(src: &[u8], len: usize, i: usize) -> Option<Option<Value<'_>>> {
+fn get_i8_value(src: &[u8], len: usize, i: usize) -> Option<io::Result<Option<Value<'_>>>> {
     use crate::record::codec::value::Int8;
 
     let src = src.get(range::<i8>(i, len))?;
 
     let value = match Int8::from(src[0] as i8) {
-        Int8::Value(n) => Some(Value::Integer(i32::from(n))),
-        Int8::Missing => None,
-        Int8::EndOfVector | Int8::Reserved(_) => todo!(),
+        Int8::Value(n) => Ok(Some(Value::Integer(i32::from(n)))),
+        Int8::Missing => Ok(None),
+        Int8::EndOfVector | Int8::Reserved(_) => Err(invalid_value_error()),
     };
 
     Some(value)
 }
 
-fn get_i8_array_value(src: &[u8], len: usize, i: usize) -> Option<Option<Value<'_>>> {
+fn get_i8_array_value(src: &[u8], len: usize, i: usize) -> Option<io::Result<Option<Value<'_>>>> {
     let src = src.get(range::<i8>(i, len))?;
     let values = Values::<'_, i8>::new(src);
-    Some(Some(Value::Array(Array::Integer(Box::new(values)))))
+    Some(Ok(Some(Value::Array(Array::Integer(Box::new(values))))))
 }
 
-fn get_i16_value(src: &[u8], len: usize, i: usize) -> Option<Option<Value<'_>>> {
+fn get_i16_value(src: &[u8], len: usize, i: usize) -> Option<io::Result<Option<Value<'_>>>> {
     use crate::record::codec::value::Int16;
 
     let src = src.get(range::<i16>(i, len))?;
 
-    // SAFETY: `src` is 2 bytes.
-    let value = match Int16::from(i16::from_le_bytes(src.try_into().unwrap())) {
-        Int16::Value(n) => Some(Value::Integer(i32::from(n))),
-        Int16::Missing => None,
-        Int16::EndOfVector | Int16::Reserved(_) => todo!(),
+    // `src` is 2 bytes only if the series has a single value per sample.
+    let Ok(buf) = src.try_into() else {
+        return Some(Err(invalid_length_error()));
+    };
+
+    let value = match Int16::from(i16::from_le_bytes(buf)) {
+        Int16::Value(n) => Ok(Some(Value::Integer(i32::from(n)))),
+        Int16::Missing => Ok(None),
+        Int16::EndOfVector | Int16::Reserved(_) => Err(invalid_value_error()),
     };
 
     Some(value)
 }
 
-fn get_i16_array_value(src: &[u8], len: usize, i: usize) -> Option<Option<Value<'_>>> {
+fn get_i16_array_value(src: &[u8], len: usize, i: usize) -> Option<io::Result<Option<Value<'_>>>> {
     let src = src.get(range::<i16>(i, len))?;
     let values = Values::<'_, i16>::new(src);
-    Some(Some(Value::Array(Array::Integer(Box::new(values)))))
+    Some(Ok(Some(Value::Array(Array::Integer(Box::new(values))))))
 }
 
-fn get_i32_value(src: &[u8], len: usize, i: usize) -> Option<Option<Value<'_>>> {
+fn get_i32_value(src: &[u8], len: usize, i: usize) -> Option<io::Result<Option<Value<'_>>>> {
     use crate::record::codec::value::Int32;
 
     let src = src.get(range::<i32>(i, len))?;
 
-    // SAFETY: `src` is 2 bytes.
-    let value = match Int32::from(i32::from_le_bytes(src.try_into().unwrap())) {
-        Int32::Value(n) => Some(Value::Integer(n)),
-        Int32::Missing => None,
-        Int32::EndOfVector | Int32::Reserved(_) => todo!(),
+    // `src` is 4 bytes only if the series has a single value per sample.
+    let Ok(buf) = src.try_into() else {
+        return Some(Err(invalid_length_error()));
+    };
+
+    let value = match Int32::from(i32::from_le_bytes(buf)) {
+        Int32::Value(n) => Ok(Some(Value::Integer(n))),
+        Int32::Missing => Ok(None),
+        Int32::EndOfVector | Int32::Reserved(_) => Err(invalid_value_error()),
     };
 
     Some(value)
 }
 
-fn get_i32_array_value(src: &[u8], len: usize, i: usize) -> Option<Option<Value<'_>>> {
+fn get_i32_array_value(src: &[u8], len: usize, i: usize) -> Option<io::Result<Option<Value<'_>>>> {
     let src = src.get(range::<i32>(i, len))?;
     let values = Values::<'_, i32>::new(src);
-    Some(Some(Value::Array(Array::Integer(Box::new(values)))))
+    Some(Ok(Some(Value::Array(Array::Integer(Box::new(values))))))
 }
 
-fn get_f32_value(src: &[u8], len: usize, i: usize) -> Option<Option<Value<'_>>> {
+fn get_f32_value(src: &[u8], len: usize, i: usize) -> Option<io::Result<Option<Value<'_>>>> {
     use crate::record::codec::value::Float;
 
     let src = src.get(range::<f32>(i, len))?;
 
-    // SAFETY: `src` is 2 bytes.
-    let value = match Float::from(f32::from_le_bytes(src.try_into().unwrap())) {
-        Float::Value(n) => Some(Value::Float(n)),
-        Float::Missing => None,
-        Float::EndOfVector | Float::Reserved(_) => todo!(),
+    // `src` is 4 bytes only if the series has a single value per sample.
+    let Ok(buf) = src.try_into() else {
+        return Some(Err(invalid_length_error()));
+    };
+
+    let value = match Float::from(f32::from_le_bytes(buf)) {
+        Float::Value(n) => Ok(Some(Value::Float(n))),
+        Float::Missing => Ok(None),
+        Float::EndOfVector | Float::Reserved(_) => Err(invalid_value_error()),
     };
 
     Some(value)
 }
 
-fn get_f32_array_value(src: &[u8], len: usize, i: usize) -> Option<Option<Value<'_>>> {
+fn get_f32_array_value(src: &[u8], len: usize, i: usize) -> Option<io::Result<Option<Value<'_>>>> {
     let src = src.get(range::<f32>(i, len))?;
     let values = Values::<'_, f32>::new(src);
-    Some(Some(Value::Array(Array::Float(Box::new(values)))))
+    Some(Ok(Some(Value::Array(Array::Float(Box::new(values))))))
 }
 
-fn get_string(src: &[u8], len: usize, i: usize) -> Option<&str> {
+fn get_string(src: &[u8], len: usize, i: usize) -> Option<io::Result<&str>> {
     const NUL: u8 = 0x00;
 
     let src = src.get(range::<u8>(i, len))?;
@@ -274,44 +314,46 @@ fn get_string(src: &[u8], len: usize, i: usize) -> Option<&str> {
         None => src,
     };
 
-    Some(
-        str::from_utf8(src)
-            .map_err(|e| io::Error::new(io::ErrorKind::InvalidData, e))
-            .unwrap(), // TODO
-    )
+    Some(str::from_utf8(src).map_err(|e| io::Error::new(io::ErrorKind::InvalidData, e)))
 }
 
-fn get_char_value(src: &[u8], len: usize, i: usize) -> Option<Option<Value<'_>>> {
+fn get_char_value(src: &[u8], len: usize, i: usize) -> Option<io::Result<Option<Value<'_>>>> {
     const MISSING: char = '.';
 
-    let s = get_string(src, len, i)?;
+    let value = get_string(src, len, i)?.and_then(|s| match s.chars().next() {
+        Some(MISSING) => Ok(None),
+        Some(c) => Ok(Some(Value::Character(c))),
+        None => Err(invalid_value_error()),
+    });
 
-    // TODO
-    let c = s.chars().next().unwrap();
-
-    match c {
-        MISSING => Some(None),
-        _ => Some(Some(Value::Character(c))),
-    }
+    Some(value)
 }
 
-fn get_char_array_value(src: &[u8], len: usize, i: usize) -> Option<Option<Value<'_>>> {
-    let s = get_string(src, len, i)?;
-    Some(Some(Value::Array(Array::Character(Box::new(s)))))
+fn get_char_array_value(src: &[u8], len: usize, i: usize) -> Option<io::Result<Option<Value<'_>>>> {
+    let value = get_string(src, len, i)?.map(|s| Some(Value::Array(Array::Character(Box::new(s)))));
+
+    Some(value)
 }
 
-fn get_string_value(src: &[u8], len: usize, i: usize) -> Option<Option<Value<'_>>> {
+fn get_string_value(src: &[u8], len: usize, i: usize) -> Option<io::Result<Option<Value<'_>>>> {
     const MISSING: &str = ".";
 
-    match get_string(src, len, i)? {
-        MISSING => Some(None),
-        s => Some(Some(Value::String(Cow::from(s)))),
-    }
+    let value = get_string(src, len, i)?.map(|s| match s {
+        MISSING => None,
+        s => Some(Value::String(Cow::from(s))),
+    });
+
+    Some(value)
 }
 
-fn get_string_array_value(src: &[u8], len: usize, i: usize) -> Option<Option<Value<'_>>> {
-    let s = get_string(src, len, i)?;
-    Some(Some(Value::Array(Array::String(Box::new(s)))))
+fn get_string_array_value(
+    src: &[u8],
+    len: usize,
+    i: usize,
+) -> Option<io::Result<Option<Value<'_>>>> {
+    let value = get_string(src, len, i)?.map(|s| Some(Value::Array(Array::String(Box::new(s)))));
+
+    Some(value)
 }
 
 fn get_genotype_value<'r>(
